@@ -561,6 +561,35 @@ pub fn run_case(case: &AllocCase, stats: &mut AllocStats) -> Result<(), Violatio
 	Ok(())
 }
 
+fn valid_for(ty: &str, b: &[u8]) -> bool {
+	let s = match std::str::from_utf8(b) {
+		Ok(s) => s,
+		Err(_) => return false,
+	};
+	match ty {
+		"Uri" => Uri::new(b).is_ok(),
+		"UriRef" => UriRef::new(b).is_ok(),
+		"Iri" => Iri::new(s).is_ok(),
+		"IriRef" => IriRef::new(s).is_ok(),
+		"uri::Scheme" => uri::Scheme::new(b).is_ok(),
+		"uri::Authority" => uri::Authority::new(b).is_ok(),
+		"uri::UserInfo" => uri::UserInfo::new(b).is_ok(),
+		"uri::Host" => uri::Host::new(b).is_ok(),
+		"uri::Port" => uri::Port::new(b).is_ok(),
+		"uri::Path" => uri::Path::new(b).is_ok(),
+		"uri::Segment" => uri::Segment::new(b).is_ok(),
+		"uri::Query" => uri::Query::new(b).is_ok(),
+		"uri::Fragment" => uri::Fragment::new(b).is_ok(),
+		"iri::Authority" => iri::Authority::new(s).is_ok(),
+		"iri::UserInfo" => iri::UserInfo::new(s).is_ok(),
+		"iri::Host" => iri::Host::new(s).is_ok(),
+		"iri::Path" => iri::Path::new(s).is_ok(),
+		"iri::Segment" => iri::Segment::new(s).is_ok(),
+		"iri::Query" => iri::Query::new(s).is_ok(),
+		_ => iri::Fragment::new(s).is_ok(),
+	}
+}
+
 pub fn gen_case(rng: &mut Rng, stats: &mut AllocStats, thorough: bool) -> AllocCase {
 	let ty = *rng.pick(TYPES);
 	let iri = ty.starts_with("Iri") || ty.starts_with("iri::");
@@ -606,7 +635,9 @@ pub fn gen_case(rng: &mut Rng, stats: &mut AllocStats, thorough: bool) -> AllocC
 		}
 	}
 	// invalid inputs: corrupt a valid one
+	let mut pristine = true;
 	if g.rng.chance(1, 4) {
+		pristine = false;
 		let bad = *g.rng.pick(&[" ", "%G0", "%", "[", "\u{FFFF}", "<", "\\", "#%", "\u{E000}"]);
 		let at = if text.is_empty() { 0 } else { let mut i = g.rng.below(text.len() + 1); while !text.is_char_boundary(i) { i -= 1; } i };
 		text.insert_str(at, bad);
@@ -616,6 +647,10 @@ pub fn gen_case(rng: &mut Rng, stats: &mut AllocStats, thorough: bool) -> AllocC
 	if g.rng.chance(1, 40) {
 		// ill-formed UTF-8 (byte-based URI types must reject it without allocating)
 		bytes.push(0xFF);
+		pristine = false;
+	}
+	if pristine && !valid_for(ty, &bytes) {
+		stats.hit("generator_rejected");
 	}
 	AllocCase { ty: ty.to_string(), text: Txt(bytes), accessor: None }
 }
